@@ -1,9 +1,204 @@
-import SynthVerif.Model.Adsr
-import SynthVerif.Model.Lfo
-import SynthVerif.Model.Quantizer
-import SynthVerif.Model.Midi
-import SynthVerif.Model.Glide
-import SynthVerif.Model.Ribbon
+import SynthVerif.Props.MidiLemmas
+/-!
+# C05 — MIDI gate edges are reported exactly once per gate transition
+
+Specification (`Latch`): two edge latches driven *only* by how `gate()` moved and by whether the event was a
+note-on (velocity > 0) on the listened channel:
+* the falling latch is set when the gate goes high → low, cleared by a note-on and by a `falling_gate()` read;
+* the rising latch is set by a note-on that raises the gate from low or by any note-on in retrigger mode,
+  cleared when the gate drops and by a `rising_gate()` read.
+`polls_are_latches`: for every history of bytes, decoded messages, polls and mode changes, every poll of the
+receiver returns the latch of this specification (driven by the receiver's own `gate()` signal).
+`rising_implies_gate`, `falling_implies_not_gate`: the two implications of the property, in every reachable state.
+-/
 namespace C05
-theorem placeholder_to_be_replaced : True := trivial
+
+structure Latch where
+  gate : Bool := false
+  rise : Bool := false
+  fall : Bool := false
+  retrig : Bool := false
+deriving Repr, DecidableEq
+
+/-- the gate moved from `l.gate` to `g'` during an event that was (`noteOn`) or was not a note-on -/
+def Latch.onEvent (l : Latch) (noteOn : Bool) (g' : Bool) : Latch :=
+  { l with
+    gate := g'
+    fall := if l.gate && !g' then true else if noteOn then false else l.fall
+    rise := if l.gate && !g' then false else if noteOn && (!l.gate || l.retrig) then true else l.rise }
+
+/-- is the event a note-on (velocity > 0) for the listened channel, seen from receiver state `m`? -/
+def isNoteOn (m : Midi) : MidiEv → Bool
+  | .msg x => x.isNoteOnFor m.channel
+  | .byte b => match (parserStep m.parser b).2 with
+    | some x => x.isNoteOnFor m.channel
+    | none => false
+  | _ => false
+
+/-- specification step: sees the event kind and the gate after the event, nothing else of the receiver -/
+def Latch.step (l : Latch) (noteOn : Bool) (gateAfter : Bool) : MidiEv → Latch × Option Bool
+  | .pollRising => ({ l with rise := false }, some l.rise)
+  | .pollFalling => ({ l with fall := false }, some l.fall)
+  | .setRetrigger b => ({ l with retrig := b }, none)
+  | .setPriority _ => (l, none)
+  | .msg _ | .byte _ => (l.onEvent noteOn gateAfter, none)
+
+/-- the polls the specification answers along a history, driven by the receiver's gate signal -/
+def specPolls (m : Midi) (l : Latch) : List MidiEv → List Bool
+  | [] => []
+  | e :: es =>
+    let m' := (m.stepEv e).1
+    let (l', p) := l.step (isNoteOn m e) m'.gate e
+    match p with
+    | some b => b :: specPolls m' l' es
+    | none => specPolls m' l' es
+
+/-- coupling invariant -/
+structure Rel (m : Midi) (l : Latch) : Prop where
+  gate : l.gate = m.gate
+  rise : l.rise = m.risingGate
+  fall : l.fall = m.fallingGate
+  retrig : l.retrig = m.retrigger
+  held : m.gate = !m.held.isEmpty
+  riseGate : m.risingGate = true → m.gate = true
+  fallGate : m.fallingGate = true → m.gate = false
+
+theorem rel_new (ch : Nat) : Rel (Midi.new ch) {} := by
+  constructor <;> simp [Midi.new]
+
+private theorem off_nil {m : Midi} (h : m.held = []) (n : Nat) : m.heldAfterOff n = [] := by
+  simp [Midi.heldAfterOff, h]
+
+private theorem handle_rel {m : Midi} {l : Latch} (h : Rel m l) (x : MidiMsg) :
+    Rel (m.handle x) (l.onEvent (x.isNoteOnFor m.channel) (m.handle x).gate) := by
+  obtain ⟨hg, hr, hf, ht, hh, hrg, hfg⟩ := h
+  cases x <;> simp only [Midi.handle, MidiMsg.isNoteOnFor]
+  case noteOn c n v =>
+    by_cases hc : c = m.channel
+    · subst hc
+      by_cases hv : v = 0
+      · subst hv
+        simp only [beq_self_eq_true, ↓reduceIte, Midi.noteOff, Latch.onEvent]
+        cases he : (m.heldAfterOff n).isEmpty <;> cases hgm : m.gate <;>
+          constructor <;> simp_all [off_nil]
+      · have hv' : (v == 0) = false := by simp [hv]
+        have h1 := Midi.heldAfterOn_length_one m n
+        have h2 := Midi.heldAfterOn_isEmpty m n
+        simp only [beq_self_eq_true, ↓reduceIte, hv', Midi.noteOn, Latch.onEvent, Bool.false_eq_true]
+        cases hgm : m.gate <;> cases hre : m.retrigger <;> constructor <;> simp_all
+    · have : (c == m.channel) = false := by simp [hc]
+      simp only [this, Bool.false_eq_true, ↓reduceIte, Bool.false_and, Latch.onEvent]
+      cases hgm : m.gate <;> constructor <;> simp_all
+  case noteOff c n v =>
+    by_cases hc : c = m.channel
+    · subst hc
+      simp only [beq_self_eq_true, ↓reduceIte, Midi.noteOff, Latch.onEvent]
+      cases he : (m.heldAfterOff n).isEmpty <;> cases hgm : m.gate <;>
+        constructor <;> simp_all [off_nil]
+    · have : (c == m.channel) = false := by simp [hc]
+      simp only [this, Bool.false_eq_true, ↓reduceIte, Latch.onEvent]
+      cases hgm : m.gate <;> constructor <;> simp_all
+  case controlChange c cc v =>
+    by_cases hc : c = m.channel
+    · subst hc
+      simp only [beq_self_eq_true, ↓reduceIte, Midi.controlChange, Latch.onEvent]
+      cases ha : (Midi.ccArm cc == 8) <;> cases hgm : m.gate <;> constructor <;> simp_all
+    · have : (c == m.channel) = false := by simp [hc]
+      simp only [this, Bool.false_eq_true, ↓reduceIte, Latch.onEvent]
+      cases hgm : m.gate <;> constructor <;> simp_all
+  case pitchBend c a b =>
+    simp only [Latch.onEvent]
+    split <;> (cases hgm : m.gate <;> constructor <;> simp_all)
+  all_goals (simp only [Latch.onEvent]; cases hgm : m.gate <;> constructor <;> simp_all)
+
+private theorem step_rel {m : Midi} {l : Latch} (h : Rel m l) (e : MidiEv) :
+    Rel (m.stepEv e).1 (l.step (isNoteOn m e) (m.stepEv e).1.gate e).1 ∧
+    (m.stepEv e).2 = (l.step (isNoteOn m e) (m.stepEv e).1.gate e).2 := by
+  cases e with
+  | msg x => exact ⟨handle_rel h x, rfl⟩
+  | byte b =>
+    simp only [Midi.stepEv, Midi.parse, Latch.step, isNoteOn]
+    cases hp : (parserStep m.parser b).2 with
+    | none =>
+      obtain ⟨hg, hr, hf, ht, hh, hrg, hfg⟩ := h
+      refine ⟨?_, trivial⟩
+      simp only [Latch.onEvent]
+      cases hgm : m.gate <;> constructor <;> simp_all
+    | some x =>
+      refine ⟨?_, trivial⟩
+      have h' : Rel { m with parser := (parserStep m.parser b).1 } l := by
+        obtain ⟨hg, hr, hf, ht, hh, hrg, hfg⟩ := h
+        constructor <;> simp_all
+      exact handle_rel h' x
+  | pollRising =>
+    obtain ⟨hg, hr, hf, ht, hh, hrg, hfg⟩ := h
+    refine ⟨?_, ?_⟩
+    · constructor <;> simp_all [Midi.stepEv, Midi.readRising, Latch.step]
+    · simp [Midi.stepEv, Midi.readRising, Latch.step, hr]
+  | pollFalling =>
+    obtain ⟨hg, hr, hf, ht, hh, hrg, hfg⟩ := h
+    refine ⟨?_, ?_⟩
+    · constructor <;> simp_all [Midi.stepEv, Midi.readFalling, Latch.step]
+    · simp [Midi.stepEv, Midi.readFalling, Latch.step, hf]
+  | setRetrigger b =>
+    obtain ⟨hg, hr, hf, ht, hh, hrg, hfg⟩ := h
+    exact ⟨by constructor <;> simp_all [Midi.stepEv, Latch.step], rfl⟩
+  | setPriority p =>
+    obtain ⟨hg, hr, hf, ht, hh, hrg, hfg⟩ := h
+    exact ⟨by constructor <;> simp_all [Midi.stepEv, Latch.step], rfl⟩
+
+private theorem polls_rel {m : Midi} {l : Latch} (h : Rel m l) (es : List MidiEv) :
+    (m.runEv es).2 = specPolls m l es ∧ ∃ l', Rel (m.runEv es).1 l' := by
+  induction es generalizing m l with
+  | nil => exact ⟨rfl, l, h⟩
+  | cons e es ih =>
+    obtain ⟨hrel, hout⟩ := step_rel h e
+    obtain ⟨ih1, ih2⟩ := ih hrel
+    simp only [Midi.runEv, specPolls]
+    refine ⟨?_, ih2⟩
+    rw [hout] at *
+    cases hp : (l.step (isNoteOn m e) (m.stepEv e).1.gate e).2 <;> simp_all
+
+/-- **C05, main statement.** Every poll of the receiver, in every history, returns the edge latch of the
+specification. -/
+theorem polls_are_latches (ch : Nat) (es : List MidiEv) :
+    ((Midi.new ch).runEv es).2 = specPolls (Midi.new ch) {} es :=
+  (polls_rel (rel_new ch) es).1
+
+/-- A pending rising edge implies the gate is high, in every reachable state. -/
+theorem rising_implies_gate (ch : Nat) (es : List MidiEv) :
+    ((Midi.new ch).after es).risingGate = true → ((Midi.new ch).after es).gate = true := by
+  obtain ⟨_, l', h⟩ := polls_rel (rel_new ch) es
+  exact h.riseGate
+
+/-- A pending falling edge implies the gate is low, in every reachable state. -/
+theorem falling_implies_not_gate (ch : Nat) (es : List MidiEv) :
+    ((Midi.new ch).after es).fallingGate = true → ((Midi.new ch).after es).gate = false := by
+  obtain ⟨_, l', h⟩ := polls_rel (rel_new ch) es
+  exact h.fallGate
+
+/-- The gate is high exactly when the held-note list is non-empty, in every reachable state. -/
+theorem gate_iff_held (ch : Nat) (es : List MidiEv) :
+    ((Midi.new ch).after es).gate = !((Midi.new ch).after es).held.isEmpty := by
+  obtain ⟨_, l', h⟩ := polls_rel (rel_new ch) es
+  exact h.held
+
+/-! ### the specification does what the property text says (sanity lemmas about `Latch` itself) -/
+
+/-- exactly once: a read clears the latch, so a second read without a new transition returns false -/
+theorem spec_read_twice (l : Latch) (n g) :
+    ((l.step n g .pollFalling).1.step n g .pollFalling).2 = some false ∧
+    ((l.step n g .pollRising).1.step n g .pollRising).2 = some false := by
+  simp [Latch.step]
+
+/-- a gate drop latches a falling edge whatever caused it; a following note-on cancels it -/
+theorem spec_drop_then_noteon (l : Latch) (n : Bool) (h : l.gate = true) :
+    (l.onEvent n false).fall = true ∧ ((l.onEvent n false).onEvent true true).fall = false := by
+  simp [Latch.onEvent, h]
+
+/-- non-vacuity: a concrete history (note-on, All-Notes-Off, two polls) on channel 0 -/
+example : ((Midi.new 0).runEv
+    [.byte 0x90, .byte 60, .byte 100, .byte 0xB0, .byte 123, .byte 0, .pollFalling, .pollFalling, .pollRising]).2
+    = [true, false, false] := by decide
+
 end C05
